@@ -106,10 +106,20 @@ def cold_start():
     _FLAKY["fail_auto"] = False
     import cotengra.presets as P
 
-    for o in (P.auto_optimize, P.auto_hq_optimize):
-        o._hyperoptimizers_by_thread.clear()
-        for k in [k for k in o.__dict__ if k.startswith("_last") or k.startswith("_memo")]:
-            pass
+    # the module-level preset optimizers are process-global state too: back to their state at import
+    objs = [getattr(P, n) for n in ("auto_optimize", "auto_hq_optimize", "greedy_optimize", "optimal_optimize", "optimal_outer_optimize")
+            if hasattr(P, n)]
+    for o in objs:
+        d = getattr(o, "__dict__", None)
+        if d is None:
+            continue
+        if id(o) not in _PRISTINE:
+            _PRISTINE[id(o)] = {k: (v.copy() if isinstance(v, dict) else v) for k, v in d.items() if k != "_optimize_optimal_fn"}
+        for k in list(d):
+            if k not in _PRISTINE[id(o)] and k != "_optimize_optimal_fn":
+                del d[k]
+        for k, v in _PRISTINE[id(o)].items():
+            d[k] = v.copy() if isinstance(v, dict) else v
     _INSTANCES["subject"] = _new_instance()
     _INSTANCES["use_subject"] = True
 
@@ -129,18 +139,24 @@ class cold_preset_state:
         import cotengra.presets as P
 
         self.saved = []
-        for o in (P.auto_optimize, P.auto_hq_optimize):
-            self.saved.append((o, dict(o.__dict__)))
-            o._hyperoptimizers_by_thread = {}
+        objs = [getattr(P, n) for n in ("auto_optimize", "auto_hq_optimize", "greedy_optimize", "optimal_optimize", "optimal_outer_optimize")
+                if hasattr(P, n)]
+        for o in objs:
+            d = getattr(o, "__dict__", None)
+            if d is None or id(o) not in _PRISTINE:
+                continue
+            self.saved.append((o, dict(d)))
+            keep = d.get("_optimize_optimal_fn")
+            d.clear()
+            d.update({k: (v.copy() if isinstance(v, dict) else v) for k, v in _PRISTINE[id(o)].items()})
+            if keep is not None:
+                d["_optimize_optimal_fn"] = keep
         _INSTANCES["use_subject"] = False
         return self
 
     def __exit__(self, *exc):
         for o, d in self.saved:
-            # drop anything the reference call memoised on the preset object
-            for k in list(o.__dict__):
-                if k not in d:
-                    del o.__dict__[k]
+            o.__dict__.clear()
             o.__dict__.update(d)
         _INSTANCES["use_subject"] = True
         return False
@@ -233,7 +249,8 @@ def _gen_pool(rng, sw):
         if size_dict:
             break
     n = len(inputs)
-    base = {"inputs": inputs, "output": output, "sizes": [[k, v] for k, v in size_dict.items()], "optimize": "greedy",
+    base = {"inputs": inputs, "output": output, "sizes": [[k, v] for k, v in size_dict.items()],
+            "optimize": sw.choice(["greedy", "greedy", "auto", "optimal"]),
             "optimize_kind": "preset", "kwargs": {}, "canonicalize": True, "as_list": False, "diff": "base"}
     pool = [base]
 
@@ -397,7 +414,7 @@ def gen_case(prop, seed, tier):
         if ops_rng.random() < evict_rate:
             c["evict"] = ops_rng.sample(["expr", "path", "handlers", "preparers", "lru"], ops_rng.randint(1, 3))
             c["evict_frac"] = ops_rng.choice([1.0, 0.5])
-        if ops_rng.random() < 0.08:
+        if ops_rng.random() < 0.12:
             c["fail_pathfinder"] = True
         calls.append(c)
     return {"seed": seed, "pool": pool, "calls": calls, "lru_maxsize": sw.choice([None, None, 1, 2, 4])}
@@ -429,6 +446,7 @@ def _materialise(spec):
 
 
 _INSTANCES = {"subject": None, "use_subject": True}
+_PRISTINE = {}
 
 
 def _new_instance():
@@ -736,7 +754,7 @@ def run_case(prop, case):
                     bad = f"shape {a.shape} (cached) vs {b.shape} (uncached)"
                 else:
                     err = np.abs(a - b)
-                    tol = 1e-9 * scale + 1e-300
+                    tol = (1e-9 * scale + 1e-300) if np.shape(scale) == a.shape else (1e-9 * float(np.max(scale)) + 1e-300)
                     if not np.all(err <= tol):
                         bad = f"max |cached-uncached| = {float(err.max()):.3e}"
                 if bad:
